@@ -202,7 +202,9 @@ func confuse(s *simcore.Source, doc string) (string, string) {
 		return string(out), fmt.Sprintf("key of %s := %s", keyPaths[i], repl[k])
 	}
 	i := s.Draw(len(nodes), "confuse-node")
-	repl := []string{"123", `"x"`, "true", "null", "[]", "{}", `[1, "a", null]`, `{"a": 1}`, `""`, "-1.5e300", `[[]]`, `{"if": 1, "config": "x"}`}
+	repl := []string{"123", `"x"`, "true", "null", "[]", "{}", `[1, "a", null]`, `{"a": 1}`, `""`, "-1.5e300", `[[]]`, `{"if": 1, "config": "x"}`,
+		// shell-style expansions (the file_system provider substitutes environment variables when env_vars_enabled is set)
+		`"${HOME:0:-1}"`, `"${HOME:99:5}"`, `"${UNSET_VERIF_VAR:-${HOME}"`, `"${HOME/"`, `"$${HOME"`}
 	k := s.Draw(len(repl), "confuse-value")
 	var nn yaml.Node
 	yaml.Unmarshal([]byte(repl[k]), &nn)
@@ -281,6 +283,7 @@ func robustRuleSets(r *simcore.Run, w *worlds) {
 	}
 	defer target.Processor.OnDeleted(good)
 	n := 1 + s.Draw(4, "documents")
+	envVars := s.Draw(3, "env-vars-enabled") == 2
 	loaded := false
 	entryName := map[bool]string{true: "decision", false: "proxy"}[target == w.decision]
 	probes := []string{"/fuzz/1", "/fuzz/static", "/fuzz2/a/b", "/fuzz3/x/y"}
@@ -321,7 +324,7 @@ func robustRuleSets(r *simcore.Run, w *worlds) {
 		r.Count("corruption:"+strings.SplitN(how, " ", 2)[0], 1)
 		acceptedBefore := accepted
 		guarded(r, "loading a rule set ("+how+")", func() {
-			rs, err := world.ParseRuleSet("fuzz", doc)
+			rs, err := world.ParseRuleSetEnv("fuzz", doc, envVars)
 			if err != nil {
 				r.Logf("  parser rejected it")
 				r.Count("ruleset-rejected-by-parser", 1)
